@@ -93,6 +93,13 @@ theorem rxComplete_cases (r : Rx) (c : Chan) :
     | dropped => simp
     | broken => simp
 
+/-- `poll_complete` lets the loop continue only in the idle state. -/
+theorem rxComplete_inv_phase {r r' : Rx} {c c' : Chan} {k : Complete}
+    (hc : rxComplete r c = (k, r', c')) : k = .cont → r'.phase = .idle := by
+  rcases rxComplete_cases r c with ⟨hp, hr⟩ | ⟨m, rest, hp, hd, hr⟩ | ⟨hp, hd, he, hr⟩ | ⟨hp, hd, he, hr⟩ |
+    ⟨hp, hd, he, hr⟩ | ⟨hp, hz, hr⟩ | ⟨m, hp, hz, hne, hr⟩ | ⟨m, hp, hz, heq, hr⟩ | ⟨hp, hz, hr⟩
+  all_goals (rw [hr] at hc; simp only [Prod.mk.injEq] at hc; obtain ⟨rfl, rfl, rfl⟩ := hc; simp [hp])
+
 theorem startEof_cases (r : Rx) :
     (∃ e, r.sizeInfo = .determined e ∧ r.bytesRead ≠ e ∧ startEof r = (.ret (.rxErr .unexpectedEof), r)) ∨
     (∃ e, r.sizeInfo = .determined e ∧ r.bytesRead = e ∧ startEof r = (.again, { r with eofVerified := true })) ∨
